@@ -82,6 +82,35 @@ Theorem C18_all_or_nothing_refuted : ~ all_or_nothing_law.
 Proof. exact all_or_nothing_law_false. Qed.
 Print Assumptions C18_all_or_nothing_refuted.
 
+(* FULL statement (not proved in Coq; evaluated on the implementation by the krusty.Run oracle):
+     a successful run leaves a tree whose build output equals the original's.
+   PROVED part, per reference: (1) the path string the localizer writes into a kustomization /
+   plugin (the printed filepath.Rel result), joined to the mirrored root the way a later build
+   does, is exactly the location that was written; (2) for every non-empty file reference that
+   localizeFile accepts (the handler of openapi.path, configurations, crds, generator files / envs,
+   patches, patchesJson6902, replacements, plugin paths; resources use the same two steps), the
+   bytes bound at the referenced cleaned source path are afterwards bound at the rewritten path
+   below the mirrored root (or a directory was already there).
+   Missing: that later writes of the same run do not overwrite a copy, the recursion over roots, and
+   the build semantics itself. *)
+Theorem C18_rewritten_path_resolves :
+  forall dst lp,
+    forallb (fun c => negb (str_contains_char slash c)) lp = true ->
+    join_abs dst (show_rel lp) = join_comps dst lp.
+Proof. exact rewritten_path_resolves. Qed.
+Print Assumptions C18_rewritten_path_resolves.
+
+Theorem C18_equivalent_partial :
+  forall ch fault scope nd lc path w w' s,
+    good_path (lc_dst lc) = true -> fs_wf (w_fs w) -> path <> "" ->
+    run ch fault (loc_file (mkArgs scope nd) lc path) w = (w', OOk s) ->
+    exists c,
+      lookup (query_comps (abs_of (lc_root lc) path)) (w_fs w) = Some (EFile c) /\
+      (lookup (join_abs (lc_dst lc) s) (w_fs w') = Some (EFile c) \/
+       lookup (join_abs (lc_dst lc) s) (w_fs w') = Some EDir).
+Proof. exact loc_file_copies. Qed.
+Print Assumptions C18_equivalent_partial.
+
 (* ---- obligations over the tables regenerated from /repo (Gen/LocalizeTables.v) ---- *)
 
 Theorem C18_Gen_kust_names_good : forallb good_comp gen_kust_file_names = true.
